@@ -10,6 +10,7 @@ CONSTANTS
   NLook = 0
   NextFirst = TRUE
   EmptyHeadGuard = TRUE
+  GuardBroad = FALSE
   NSync = 1
   SyncHoldsLock = TRUE
 VIEW kview
